@@ -13,7 +13,7 @@ import os
 import subprocess
 import sys
 
-WT = "/tmp/seedwt"
+WT = "/tmp/seedwt-check"
 VERIF = os.path.dirname(os.path.dirname(os.path.abspath(__file__)))
 
 
